@@ -104,7 +104,7 @@ def errsum(exc, remaining=None):
     try:
         if isinstance(exc, ValueConstraintViolatedError):
             c = exc.constraint
-            return (n, str(c.constraint_path), tdesc(c.tpm_type), int(exc.value))
+            return (n, str(c.constraint_path), tdesc(c.tpm_type), None if exc.value is None else int(exc.value))
         if isinstance(exc, AnticipatedSizeConstraintExceededError):
             c = exc.constraint
             return (n, str(c.constraint_path), c.size_max, c.size_already, str(exc.violator_path),
